@@ -111,6 +111,7 @@ def run(ctx, rep):
     check_loop_contexts(fx, rep)
     check_return_window(fx, rep)
     check_context_confinement(fx, rep)
+    check_window_arithmetic(fx, rep)
     rep.assume('Vec::resize(len, 0) zero-fills (standard library)')
     rep.assume('cfg memory_limit adds an early MemoryLimitOOG return inside the size test; it only removes paths')
 
@@ -157,6 +158,79 @@ def check_context_confinement(fx, rep):
                 rep.violation('R6-context-confinement', '%s:%s' % (who, short),
                               'SharedMemory::%s reaches the shared buffer\'s contents directly (`%s`): offsets would be absolute, i.e. another frame\'s memory, instead of relative to this frame\'s checkpoint' % (who, short), f.where(bi))
     rep.floor('R6-buffer-uses', n, 8)
+
+
+def check_window_arithmetic(fx, rep):
+    """R7: a frame's memory is the part of the shared buffer from its checkpoint to the end.  The six
+    primitives all use that same window: new_context starts it at the current end of the buffer (and
+    records that as last_checkpoint), free_context cuts the buffer back to the popped checkpoint and
+    restores the parent's, len = buffer.len() - last_checkpoint, resize grows to last_checkpoint +
+    new_size filling with 0, context_memory[_mut] slice last_checkpoint..buffer.len()."""
+    from symx import Symx, Budget, render
+    import c15
+
+    def paths(name):
+        f = fx.fns.get(SM + name)
+        if f is None:
+            return None, None
+        rep.fn(f)
+        try:
+            return f, Symx(fx, max_paths=500, snapshot_refs=True).run(f)
+        except Budget:
+            return f, None
+
+    def deep(v):
+        return c15.render_deep(v)
+
+    BUFLEN = 'len(&arg1.buffer)'
+    LC = 'arg1.last_checkpoint'
+    checks = []
+    f, rs = paths('new_context')
+    if rs:
+        okc = True
+        for r in rs:
+            st = {''.join(k[1]): deep(v) for k, v in r.stores.items() if k[0] == ('arg', 1)}
+            pushed = [deep(e[1][1]) for e in r.events if e[0].endswith('Vec::push') and len(e[1]) > 1]
+            if st.get('.last_checkpoint') != BUFLEN or pushed != [BUFLEN]:
+                okc = False
+        checks.append(('new_context', f, okc, 'the new frame\'s window must start at the current end of the buffer: checkpoints.push(buffer.len()) and last_checkpoint = buffer.len()'))
+    f, rs = paths('free_context')
+    if rs:
+        okc = False
+        for r in rs:
+            st = {''.join(k[1]): deep(v) for k, v in r.stores.items() if k[0] == ('arg', 1)}
+            sl = [deep(e[1][1]) for e in r.events if e[0].split('::')[-1] in ('set_len', 'truncate') and len(e[1]) > 1]
+            if sl:
+                lc = st.get('.last_checkpoint', '')
+                okc = sl == ["pop(&('arg', 1).checkpoints)@Some.0"] and 'last(' in lc and lc.startswith(('unwrap_or_default(', 'unwrap_or('))
+        checks.append(('free_context', f, okc, 'the buffer must be cut back to the popped checkpoint and last_checkpoint restored to the parent\'s (checkpoints.last() or 0)'))
+    f, rs = paths('len')
+    if rs:
+        okc = all(deep(r.ret) == 'Sub(%s, %s)' % (BUFLEN, LC) or deep(r.ret).startswith('len(&deref(context_memory(') for r in rs)
+        checks.append(('len', f, okc, 'len() must be buffer.len() - last_checkpoint'))
+    f, rs = paths('resize')
+    if rs:
+        okc = True
+        for r in rs:
+            ev = [[deep(a) for a in e[1][1:]] for e in r.events if e[0].split('::')[-1] == 'resize']
+            if ev not in ([['Add(%s, arg2)' % LC, '0']], [['Add(arg2, %s)' % LC, '0']]):
+                okc = False
+        checks.append(('resize', f, okc, 'resize(n) must grow the buffer to last_checkpoint + n, filling with 0'))
+    for nm in ('context_memory', 'context_memory_mut'):
+        f, rs = paths(nm)
+        if rs:
+            okc = True
+            for r in rs:
+                ev = [deep(e[1][1]) for e in r.events if e[0].split('::')[-1] in ('get_unchecked', 'get_unchecked_mut', 'index', 'index_mut', 'get', 'get_mut') and len(e[1]) > 1]
+                if len(ev) != 1 or not (ev[0].startswith('Range::Range{start: %s, end: len(' % LC) or ev[0].startswith('RangeFrom::RangeFrom{start: %s' % LC)):
+                    okc = False
+            checks.append((nm, f, okc, 'the frame window is buffer[last_checkpoint..]'))
+    for nm, f, okc, why in checks:
+        if okc:
+            rep.ok('R7-window-arithmetic', nm, why)
+        else:
+            rep.violation('R7-window-arithmetic', nm, 'SharedMemory::%s: %s' % (nm, why), f.where())
+    rep.floor('R7-primitives', len(checks), 6)
 
 
 def check_access_coverage(fx, rep):
